@@ -237,7 +237,7 @@ BOOL_BINARY = ["logical_and", "logical_or"]
 UNARY = ["negative", "exp", "log"]
 REDUCE_INT = ["sum", "prod", "min", "max", "any", "all", "count_nonzero"]
 REDUCE_FLOAT = ["mean", "var", "std", "logsumexp"]
-PRESERVE = ["flip", "roll", "sort", "argsort", "softmax", "log_softmax"]
+PRESERVE = ["flip", "roll", "roll", "sort", "argsort", "softmax", "log_softmax"]
 
 
 def gen_id(g, concat=None):
@@ -456,7 +456,8 @@ def gen_preserve(g):
     extra = {}
     if op == "roll":
         nm = len(marked)
-        extra["shift"] = rng.randint(-3, 3) if nm == 1 and rng.random() < 0.5 else tuple(rng.randint(-3, 3) for _ in range(nm))
+        # shifts beyond the axis length and negative ones: rolling is periodic in the length of the ROLLED axis
+        extra["shift"] = rng.randint(-9, 9) if nm == 1 and rng.random() < 0.5 else tuple(rng.randint(-9, 9) for _ in range(nm))
     if op in ("softmax", "log_softmax"):
         arr = int_data(rng, sh, -3, 3, ramp=False).astype(np.float64)
         if rng.random() < 0.4:
